@@ -161,19 +161,19 @@ Proof. vm_compute. reflexivity. Qed.
 (* For EVERY schema element with a valid physical type, every pandas-metadata entry (any text), every list of
    row groups, both settings of pandas_nulls, with or without a `categories` request: if the prediction is a
    dtype d, a column allocated for d has dtype d. *)
-Theorem realise_fixpoint : forall has_md pn se md i rgs as_cat d,
+Theorem realise_fixpoint : forall has_md pn se md loc rgs as_cat d,
   (se_type se < 8)%N ->
-  predict pinned has_md pn se md i rgs as_cat = ROk d -> realise (md_tzflag md) d = d.
+  predict pinned has_md pn se md loc rgs as_cat = ROk d -> realise (md_tzflag md) d = d.
 Proof.
-  intros has_md pn se md i rgs as_cat d Ht. unfold predict, base_dtype, base_dtype_gen. cbn [r_int96_tz r_absent_counts r_cat_md repaired].
+  intros has_md pn se md loc rgs as_cat d Ht. unfold predict, base_dtype, base_dtype_gen. cbn [r_int96_tz r_absent_counts r_cat_md r_by_name repaired].
   destruct (se_group se).
   - destruct as_cat; intros H; inversion H; reflexivity.
   - destruct (typemap pinned se md) as [d0|] eqn:Etm; [|discriminate].
     pose proof (typemap_codomain_ok _ _ _ Ht Etm) as Hin.
     pose proof (forall_adjust_spec _ adjust_fix_check true has_md pn d0 md (md_tzflag md)
-                                   (md_claims_gen true md) (md_cat_skip true md) (null_evidence_gen true i rgs) Hin) as Hc.
+                                   (md_claims_gen true md) (md_cat_skip true md) (null_evidence_gen true loc rgs) Hin) as Hc.
     cbv beta iota in Hc.
-    destruct (adjust pinned true has_md pn d0 _ (md_tzflag md) (md_claims_gen true md) (md_cat_skip true md) (null_evidence_gen true i rgs)) as [d1|];
+    destruct (adjust pinned true has_md pn d0 _ (md_tzflag md) (md_claims_gen true md) (md_cat_skip true md) (null_evidence_gen true loc rgs)) as [d1|];
       [|discriminate].
     cbn [fix_ok] in Hc. apply dt_eqb_eq in Hc.
     destruct as_cat; intros H; inversion H; subst; [reflexivity|exact Hc].
@@ -186,7 +186,7 @@ Lemma int96_tz_old_refuted :
     base_dtype_old pinned has_md pn se md i rgs = ROk d /\ realise (md_tzflag md) d <> d.
 Proof.
   exists true, true, (mk_se 3 None None 0 false),
-         (Some (mk_md (b_ "datetime64[ns]") (b_ "datetimetz") true)), 0%nat, [], (DM8 Uns false).
+         (Some (mk_md (b_ "datetime64[ns]") (b_ "datetimetz") true)), (Some 0%nat), [], (DM8 Uns false).
   split; [reflexivity|]. split; [vm_compute; reflexivity|]. cbn. discriminate.
 Qed.
 
@@ -197,17 +197,17 @@ Lemma masked_index_old_refuted :
     predict pinned has_md pn se md i rgs false = ROk d /\ realise_index_old (md_tzflag md) d <> d.
 Proof.
   exists true, true, (mk_se 1 None None 0 false),
-         (Some (mk_md (b_ "Int32") (b_ "Int32") false)), 0%nat, [], (DNInt true 32).
+         (Some (mk_md (b_ "Int32") (b_ "Int32") false)), (Some 0%nat), [], (DNInt true 32).
   split; [reflexivity|]. split; [vm_compute; reflexivity|]. cbn. discriminate.
 Qed.
 
 (* repaired tree: an index column allocated for the predicted dtype has the predicted dtype, masked dtypes included *)
-Theorem realise_index_fixpoint : forall has_md pn se md i rgs as_cat d,
+Theorem realise_index_fixpoint : forall has_md pn se md loc rgs as_cat d,
   (se_type se < 8)%N ->
-  predict pinned has_md pn se md i rgs as_cat = ROk d ->
+  predict pinned has_md pn se md loc rgs as_cat = ROk d ->
   realise_index (md_tzflag md) d = d.
 Proof.
-  intros has_md pn se md i rgs as_cat d Ht H.
+  intros has_md pn se md loc rgs as_cat d Ht H.
   pose proof (realise_fixpoint _ _ _ _ _ _ _ _ Ht H) as R.
   destruct d; try exact R; reflexivity.
 Qed.
@@ -215,14 +215,14 @@ Qed.
 (* ---- C17_null_evidence ------------------------------------------------------------------------ *)
 Definition np_int_or_bool (d : dt) : bool := match d with DInt _ _ | DBool => true | _ => false end.
 
-(* "this row group gives no reason to expect a NULL in chunk i": it is empty, or the chunk's statistics report
-   null_count = 0 - or, on the pinned tree only (absent = false), carry no null_count at all *)
-Definition no_evidence_rg (absent : bool) (i : nat) (rg : rgroup) : Prop :=
+(* "this row group gives no reason to expect a NULL in the chunk at `loc`": it is empty, or the chunk exists and its
+   statistics report null_count = 0 - or, on the pinned tree only (absent = false), carry no null_count at all *)
+Definition no_evidence_rg (absent : bool) (loc : option nat) (rg : rgroup) : Prop :=
   rg_rows rg = 0%N \/
-  exists nc, nth_error (rg_chunks rg) i = Some (Some nc) /\ (nc = Some 0%N \/ (absent = false /\ nc = None)).
+  exists i nc, loc = Some i /\ nth_error (rg_chunks rg) i = Some (Some nc) /\ (nc = Some 0%N \/ (absent = false /\ nc = None)).
 
-Lemma null_evidence_false absent i rgs :
-  null_evidence_gen absent i rgs = Some false <-> Forall (no_evidence_rg absent i) rgs.
+Lemma null_evidence_false absent loc rgs :
+  null_evidence_gen absent loc rgs = Some false <-> Forall (no_evidence_rg absent loc) rgs.
 Proof.
   induction rgs as [|rg r IH]; cbn [null_evidence_gen].
   - split; [constructor|reflexivity].
@@ -230,25 +230,53 @@ Proof.
     + rewrite IH. split; intros H.
       * constructor; [now left|exact H].
       * now inversion H.
-    + destruct (nth_error (rg_chunks rg) i) as [[[n|]|]|] eqn:En.
+    + destruct loc as [i|].
+      2:{ split; [discriminate|]. intros H. inversion H as [|? ? H1 H2]; subst.
+          destruct H1 as [H1|(i & nc & H1 & _)]; [contradiction|discriminate]. }
+      destruct (nth_error (rg_chunks rg) i) as [[[n|]|]|] eqn:En.
       * destruct (N.eqb_spec n 0) as [E0|E0].
         -- rewrite IH. split; intros H.
-           ++ constructor; [right; exists (Some n); split; [exact En|left; now subst]|exact H].
+           ++ constructor; [right; exists i, (Some n); split; [reflexivity|split; [exact En|left; now subst]]|exact H].
            ++ now inversion H.
         -- split; [discriminate|]. intros H. inversion H as [|? ? H1 H2]; subst.
-           destruct H1 as [H1|(nc & H1 & H3)]; [contradiction|].
+           destruct H1 as [H1|(i' & nc & Hi & H1 & H3)]; [contradiction|]. inversion Hi; subst i'.
            rewrite En in H1. inversion H1; subst. destruct H3 as [H3|[_ H3]]; [|discriminate]. inversion H3. contradiction.
       * destruct absent.
         -- split; [discriminate|]. intros H. inversion H as [|? ? H1 H2]; subst.
-           destruct H1 as [H1|(nc & H1 & H3)]; [contradiction|].
+           destruct H1 as [H1|(i' & nc & Hi & H1 & H3)]; [contradiction|]. inversion Hi; subst i'.
            rewrite En in H1. inversion H1; subst. destruct H3 as [H3|[H3 _]]; discriminate.
         -- rewrite IH. split; intros H.
-           ++ constructor; [right; exists None; split; [exact En|right; now split]|exact H].
+           ++ constructor; [right; exists i, None; split; [reflexivity|split; [exact En|right; now split]]|exact H].
            ++ now inversion H.
       * split; [discriminate|]. intros H. inversion H as [|? ? H1 H2]; subst.
-        destruct H1 as [H1|(nc & H1 & _)]; [contradiction|]. rewrite En in H1. discriminate.
+        destruct H1 as [H1|(i' & nc & Hi & H1 & _)]; [contradiction|]. inversion Hi; subst i'. rewrite En in H1. discriminate.
       * split; [discriminate|]. intros H. inversion H as [|? ? H1 H2]; subst.
-        destruct H1 as [H1|(nc & H1 & _)]; [contradiction|]. rewrite En in H1. discriminate.
+        destruct H1 as [H1|(i' & nc & Hi & H1 & _)]; [contradiction|]. inversion Hi; subst i'. rewrite En in H1. discriminate.
+Qed.
+
+(* ---- which chunk is looked at ------------------------------------------------------------------- *)
+Lemma index_of_nth x l j : index_of x l = Some j -> nth_error l j = Some x.
+Proof.
+  revert j; induction l as [|y r IH]; intros j; cbn [index_of]; [discriminate|].
+  destruct (bytes_eqb_spec x y) as [E|E].
+  - intros H; inversion H; subst. reflexivity.
+  - destruct (index_of x r) as [k|]; cbn [option_map]; [|discriminate].
+    intros H; inversion H; subst. cbn. now apply IH.
+Qed.
+
+(* repaired tree: the chunk whose statistics are consulted for a field IS the chunk with the field's own path *)
+Theorem field_chunk_own : forall paths name i j,
+  field_chunk true paths name i = Some j -> nth_error paths j = Some name.
+Proof. intros paths name i j H. now apply index_of_nth. Qed.
+
+(* the pinned tree consulted the chunk at the field's POSITION: after a two-leaf MAP field this is another column's *)
+Lemma field_chunk_old_refuted :
+  exists paths name i j,
+    field_chunk false paths name i = Some j /\ nth_error paths j <> Some name /\
+    field_chunk true paths name i = Some 3%nat.
+Proof.
+  exists [b_ "m.key_value.key"; b_ "m.key_value.value"; b_ "a"; b_ "b"], (b_ "b"), 2%nat, 2%nat.
+  split; [reflexivity|]. split; [vm_compute; discriminate|vm_compute; reflexivity].
 Qed.
 
 (* a numpy_type text that np.dtype reads as an int/bool dtype contains "int"/"bool" *)
@@ -285,34 +313,34 @@ Proof. vm_compute. reflexivity. Qed.
 (* If the prediction for a field is a plain numpy int/bool dtype - one that cannot hold a NULL - and it was not
    taken on trust from the pandas metadata, then in EVERY non-empty row group the chunk at the field's position
    carries statistics with null_count = 0 (repaired tree; on the pinned tree: 0 or absent).  Any number of row groups. *)
-Theorem null_evidence_sound : forall R has_md pn se md i rgs d,
+Theorem null_evidence_sound : forall R has_md pn se md loc rgs d,
   (se_type se < 8)%N ->
-  base_dtype_gen R pinned has_md pn se md i rgs = ROk d ->
+  base_dtype_gen R pinned has_md pn se md loc rgs = ROk d ->
   np_int_or_bool d = true -> has_md && md_claims_gen (r_cat_md R) md = false ->
-  Forall (no_evidence_rg (r_absent_counts R) i) rgs.
+  Forall (no_evidence_rg (r_absent_counts R) loc) rgs.
 Proof.
-  intros R has_md pn se md i rgs d Ht. unfold base_dtype_gen.
+  intros R has_md pn se md loc rgs d Ht. unfold base_dtype_gen.
   destruct (se_group se); [intros H; inversion H; subst; discriminate|].
   destruct (typemap pinned se md) as [d0|] eqn:Etm; [|discriminate].
   pose proof (typemap_codomain_ok _ _ _ Ht Etm) as Hin.
   pose proof (forall_adjust_spec _ adjust_evidence_check (r_int96_tz R) has_md pn d0 md (md_tzflag md)
                                  (md_claims_gen (r_cat_md R) md) (md_cat_skip (r_cat_md R) md)
-                                 (null_evidence_gen (r_absent_counts R) i rgs) Hin) as Hc.
+                                 (null_evidence_gen (r_absent_counts R) loc rgs) Hin) as Hc.
   cbv beta in Hc. rewrite link_holds in Hc.
   intros H Hk Hcl. rewrite H in Hc. rewrite Hk, Hcl in Hc. cbn in Hc.
-  apply null_evidence_false. destruct (null_evidence_gen (r_absent_counts R) i rgs) as [[|]|]; try discriminate. reflexivity.
+  apply null_evidence_false. destruct (null_evidence_gen (r_absent_counts R) loc rgs) as [[|]|]; try discriminate. reflexivity.
 Qed.
 
 (* ... and then, if the null counts that ARE written are exact (C04), no NULL cell exists in the column *)
-Theorem no_null_reaches_plain_dtype : forall i rgs (actual : list N),
-  Forall (no_evidence_rg true i) rgs ->
+Theorem no_null_reaches_plain_dtype : forall loc rgs (actual : list N),
+  Forall (no_evidence_rg true loc) rgs ->
   Forall2 (fun rg a => (rg_rows rg = 0%N -> a = 0%N) /\
-                       forall n, nth_error (rg_chunks rg) i = Some (Some (Some n)) -> n = a) rgs actual ->
+                       forall i n, loc = Some i -> nth_error (rg_chunks rg) i = Some (Some (Some n)) -> n = a) rgs actual ->
   Forall (fun a => a = 0%N) actual.
 Proof.
-  intros i rgs actual H. revert actual. induction H as [|rg r Hrg Hr IH]; intros actual H2; inversion H2; subst; constructor.
-  - destruct H1 as [Hz Hnc]. destruct Hrg as [E|(nc & En & Ez)]; [auto|].
-    destruct Ez as [Ez|[Ez _]]; [|discriminate]. subst. symmetry. now apply Hnc.
+  intros loc rgs actual H. revert actual. induction H as [|rg r Hrg Hr IH]; intros actual H2; inversion H2; subst; constructor.
+  - destruct H1 as [Hz Hnc]. destruct Hrg as [E|(i & nc & Hi & En & Ez)]; [auto|].
+    destruct Ez as [Ez|[Ez _]]; [|discriminate]. subst. symmetry. now apply (Hnc i).
   - now apply IH.
 Qed.
 
@@ -320,9 +348,9 @@ Qed.
    non-empty row group says nothing about nulls (repaired by a fix: commit) *)
 Lemma absent_null_count_old_refuted :
   exists se rgs rg,
-    base_dtype_gen pinned_rules pinned false true se None 0 rgs = ROk (DInt true 64) /\
+    base_dtype_gen pinned_rules pinned false true se None (Some 0%nat) rgs = ROk (DInt true 64) /\
     In rg rgs /\ rg_rows rg <> 0%N /\ nth_error (rg_chunks rg) 0 = Some (Some None) /\
-    base_dtype_gen repaired pinned false true se None 0 rgs = ROk (DNInt true 64).
+    base_dtype_gen repaired pinned false true se None (Some 0%nat) rgs = ROk (DNInt true 64).
 Proof.
   exists (mk_se 2 None None 0 false), [mk_rg 5 [Some None]], (mk_rg 5 [Some None]).
   split; [vm_compute; reflexivity|]. split; [now left|]. split; [discriminate|]. split; reflexivity.
@@ -332,9 +360,9 @@ Qed.
    integers read as plain values is predicted int64 although its statistics report nulls (repaired by a fix: commit) *)
 Lemma categorical_md_old_refuted :
   exists se md rgs,
-    base_dtype_gen pinned_rules pinned true true se (Some md) 0 rgs = ROk (DInt true 64) /\
-    null_evidence_gen false 0 rgs = Some true /\
-    base_dtype_gen repaired pinned true true se (Some md) 0 rgs = ROk (DNInt true 64).
+    base_dtype_gen pinned_rules pinned true true se (Some md) (Some 0%nat) rgs = ROk (DInt true 64) /\
+    null_evidence_gen false (Some 0%nat) rgs = Some true /\
+    base_dtype_gen repaired pinned true true se (Some md) (Some 0%nat) rgs = ROk (DNInt true 64).
 Proof.
   exists (mk_se 2 None None 0 false), (mk_md (b_ "int8") (b_ "categorical") false), [mk_rg 5 [Some (Some 2%N)]].
   repeat split; vm_compute; reflexivity.
